@@ -109,6 +109,80 @@ fn graph_case(bits: usize) -> Case {
     c
 }
 
+
+/// the same graphs with every module-to-module import deferred: each module's imports sit in its function
+/// `late`, which main calls (twice) once the modules it imports are loaded - so no import meets a module
+/// that is still loading, cycles and self-imports included; every module body runs once, `late` binds the
+/// same module objects every time, and a module importing itself gets itself
+fn module_body_lazy(name: &str, imports: &[&str]) -> Vec<Stmt> {
+    let mut b = vec![
+        print_stmt(s(&format!("load {}", name))),
+        var_stmt("name", s(name)),
+        fn_stmt(func("f", &[], vec![st(StmtKind::Return(Some(var("name"))))])),
+    ];
+    let mut late: Vec<Stmt> = Vec::new();
+    for i in imports {
+        late.push(guarded_import(name, i, None));
+        // the module object is a local of `late`; what it names is the one module
+        late.push(st(StmtKind::Try(vec![print_stmt(invoke(var(i), "f", vec![]))], Some(("e".into(), vec![print_stmt(call(var("type"), vec![var("e")]))])), None)));
+    }
+    late.push(print_stmt(s(&format!("late {} done", name))));
+    b.push(fn_stmt(func("late", &[], late)));
+    b.push(print_stmt(s(&format!("loaded {}", name))));
+    b
+}
+
+fn lazy_graph_case(bits: usize) -> Case {
+    let mut modules = BTreeMap::new();
+    let mut k = 0;
+    let mut imports: Vec<Vec<&str>> = vec![vec![], vec![], vec![]];
+    for u in 0..3 {
+        for v in 0..3 {
+            if u != v {
+                if bits >> k & 1 == 1 {
+                    imports[u].push(MODS[v]);
+                }
+                k += 1;
+            }
+        }
+    }
+    for u in 0..3 {
+        if bits >> (6 + u) & 1 == 1 {
+            imports[u].push(MODS[u]);
+        }
+    }
+    for u in 0..3 {
+        modules.insert(MODS[u].to_string(), ModuleSource { program: Some(module_body_lazy(MODS[u], &imports[u])), compile_error: false });
+    }
+    let mut main = vec![var_stmt("name", s("main's own name"))];
+    for u in 0..3 {
+        if bits >> (9 + u) & 1 == 1 {
+            main.push(st(StmtKind::Import(MODS[u].to_string(), None)));
+        }
+    }
+    for round in 0..2 {
+        for u in 0..3 {
+            if bits >> (9 + u) & 1 == 1 {
+                main.push(expr_stmt(invoke(var(MODS[u]), "late", vec![])));
+                if round == 1 {
+                    main.push(expr_stmt(set(var(MODS[u]), "name", s(&format!("{} renamed by main", MODS[u])))));
+                }
+            }
+        }
+    }
+    // after the renaming every module sees the new names through its own imports
+    for u in 0..3 {
+        if bits >> (9 + u) & 1 == 1 {
+            main.push(expr_stmt(invoke(var(MODS[u]), "late", vec![])));
+        }
+    }
+    main.push(print_stmt(var("name")));
+    let mut c = Case::new("graphs_with_deferred_imports", main);
+    c.modules = modules;
+    c.opts = CmpOpts { trace: false, kind: false };
+    c
+}
+
 fn placements() -> Vec<Case> {
     let mut out = Vec::new();
     let mods = |extra: Vec<(&str, ModuleSource)>| -> BTreeMap<String, ModuleSource> {
@@ -523,8 +597,10 @@ pub fn run(ctx: &Ctx) -> Report {
     let thorough = ctx.thorough();
     // quick: every graph whose module-to-module part is arbitrary and main imports a non-empty subset
     let total = 1usize << 12;
-    let graphs = (0..total).filter(move |b| thorough || (b >> 9) != 0).map(graph_case);
-    let cases = placements().into_iter().chain(reimport_changes_nothing()).chain(crossings()).chain(fibers_from_other_modules()).chain(graphs);
+    let graphs = (0..total).map(graph_case);
+    // the deferred form needs main to import something: 3584 graphs
+    let lazy = (0..total).filter(move |b| (b >> 9) != 0).map(lazy_graph_case);
+    let cases = placements().into_iter().chain(lazy.collect::<Vec<_>>()).into_iter().chain(reimport_changes_nothing()).chain(crossings()).chain(fibers_from_other_modules()).chain(graphs);
     let hooks = Hooks {
         attribute: &|_c, _m, _o, _mm| None,
         nontrivial: &|c, m| c.modules.len() >= 2 && m.out.iter().filter(|l| l.starts_with("load ")).count() >= 2 || m.out.iter().any(|l| l.contains("failed")) || matches!(m.outcome, Outcome::Uncaught(_)),
@@ -534,7 +610,7 @@ pub fn run(ctx: &Ctx) -> Report {
     mcheck::fill_report(
         &mut report,
         &stats,
-        "every import graph over {main, a, b, c}: each of the 6 module-to-module edges, 3 self-loops and 3 edges from main independently present or absent (4096 graphs; the quick tier skips those where main imports nothing); every import inside a module sits in its own try/catch and is followed by a use; every module prints when its body runs, defines the same global names, and reads every one of the 30 built-in names; main reads, writes and calls through each module object, imports it again under an alias and compares identity, and probes that nothing leaked. Plus placements: import inside a function called 0/1/2 times, missing and uncompilable modules (caught, uncaught, aliased), a path with a directory, two modules of the same file name in different directories (one a global of main, the other imported without an alias inside a function / block / loop body / lambda), a three-module cycle. Plus 48 sequences of three or four programs on one interpreter (a module loaded by the first program - which ends normally or with one of five uncaught errors, optionally followed by a program that does not compile - is still loaded, with its state, for the next programs, imported at top level, in a function, through another module, under an alias). Plus `reimport_changes_nothing`: a module that defines globals under names built-ins also have and receives attributes from outside, imported again in every ordered pair of six ways (alias, same name, in a function, in a fiber, in try, through another module) with the module's and the importer's view printed after each. Plus exceptions that cross module frames: a module body that throws / imports a missing, an uncompilable, its importing (cycle) or a throwing module without a handler, or a function of another module that throws / fails an import / throws through its own finally; caught in the importer (main or a module) directly, through a function, or after a finally block that itself uses globals; straight after the handler the importer reads, defines and assigns its own globals and the check confirms where they landed. Plus fibers whose code lives in another module (made by a function of that module, stored in it, or built here from its function), run to their end from main or from a module that then uses its own globals at once. non-trivial = at least two module bodies ran, or an import failed.",
+        "every import graph over {main, a, b, c}: each of the 6 module-to-module edges, 3 self-loops and 3 edges from main independently present or absent (4096 graphs); every import inside a module sits in its own try/catch and is followed by a use; every module prints when its body runs, defines the same global names, and reads every one of the 30 built-in names; main reads, writes and calls through each module object, imports it again under an alias and compares identity, and probes that nothing leaked. The same graphs with every module-to-module import deferred into a function `late` of the importing module, which main calls three times after loading (the 3584 graphs in which main imports something): no import meets a module still loading, every body runs once, cycles and self-imports bind the one module object, renamings by main are seen through every import. Plus placements: import inside a function called 0/1/2 times, missing and uncompilable modules (caught, uncaught, aliased), a path with a directory, two modules of the same file name in different directories (one a global of main, the other imported without an alias inside a function / block / loop body / lambda), a three-module cycle. Plus 48 sequences of three or four programs on one interpreter (a module loaded by the first program - which ends normally or with one of five uncaught errors, optionally followed by a program that does not compile - is still loaded, with its state, for the next programs, imported at top level, in a function, through another module, under an alias). Plus `reimport_changes_nothing`: a module that defines globals under names built-ins also have and receives attributes from outside, imported again in every ordered pair of six ways (alias, same name, in a function, in a fiber, in try, through another module) with the module's and the importer's view printed after each. Plus exceptions that cross module frames: a module body that throws / imports a missing, an uncompilable, its importing (cycle) or a throwing module without a handler, or a function of another module that throws / fails an import / throws through its own finally; caught in the importer (main or a module) directly, through a function, or after a finally block that itself uses globals; straight after the handler the importer reads, defines and assigns its own globals and the check confirms where they landed. Plus fibers whose code lives in another module (made by a function of that module, stored in it, or built here from its function), run to their end from main or from a module that then uses its own globals at once. non-trivial = at least two module bodies ran, or an import failed.",
         json!({"modules": 4, "graphs": total}),
     );
     // several programs on one interpreter
